@@ -23,31 +23,44 @@ TInit == /\ l = 1 /\ live = FALSE
          /\ sc = [id |-> 0, ty |-> "", val |-> 0, plan |-> <<>>] /\ pc = 1
          /\ obj = [i \in Slots |-> NoObj] /\ wire = [x \in Syntaxes |-> NoWire]
 
-Report(reason) == PrintT(<<"MISMATCH", ToJson([id |-> sc.id, i |-> pc, l |-> l, reason |-> reason])>>)
-
 TSession == /\ l <= Len(Log) /\ Ev.a = "Session"
             /\ l' = l + 1
             /\ StartSession(Scn[Ev.id])
             /\ IF Ev.found /\ Scn[Ev.id].id = Ev.id THEN live' = TRUE
                ELSE /\ live' = FALSE
-                    /\ PrintT(<<"MISMATCH", ToJson([id |-> Ev.id, i |-> 0, l |-> l, reason |-> "type-not-found"])>>)
+                    /\ PrintT(<<"MISMATCH", ToJson([id |-> Ev.id, i |-> 0, l |-> l, reasons |-> <<"type-not-found">>])>>)
+
+\* Recorded findings (known_findings.json, matched by the glue): the event carries
+\* waive = the clause names whose violation is a recorded defect that leaves the abstract state
+\* as specified (judging continues), or kf = "stop": the implementation's state now differs from
+\* the spec's in the recorded way and the rest of this session is not judged.
+Waived == IF "waive" \in DOMAIN Ev THEN SeqRange(Ev.waive) ELSE {}
+Stopped == "kf" \in DOMAIN Ev
+NoInput == Ev.a = "Decode" /\ Ev.rc = "NOINPUT"
+Obs == IF "bytes" \in DOMAIN Ev THEN Ev.bytes ELSE OpaqueWire
+InOrder == Ev.id = sc.id /\ pc <= Len(sc.plan) /\ Ev.i = pc /\ Ev.a = sc.plan[pc].a
+Pending == IF ~InOrder THEN (IF Ev.a = "Crash" THEN {"crash"} ELSE {"out-of-order"})
+           ELSE Faults(sc.plan[pc], Ev) \ Waived
+
+\* the driver had nothing to decode because the preceding Encode (already judged) failed:
+\* the session ends here without a further report
+TNoInput == /\ l <= Len(Log) /\ live /\ NoInput
+            /\ live' = FALSE /\ l' = l + 1 /\ UNCHANGED vars
 
 \* an event of a live session that the spec explains: take the spec's step
-TStep == /\ l <= Len(Log) /\ live /\ Ev.a # "Session"
-         /\ Ev.id = sc.id /\ pc <= Len(sc.plan) /\ Ev.i = pc /\ Ev.a = sc.plan[pc].a
-         /\ Verdict(sc.plan[pc], Ev) = "ok"
-         /\ Step
+TStep == /\ l <= Len(Log) /\ live /\ Ev.a # "Session" /\ ~NoInput /\ ~Stopped
+         /\ Pending = {}
+         /\ Step(Obs)
          /\ l' = l + 1 /\ UNCHANGED live
+
+TStopKnown == /\ l <= Len(Log) /\ live /\ Ev.a # "Session" /\ ~NoInput /\ Stopped
+              /\ live' = FALSE /\ l' = l + 1 /\ UNCHANGED vars
 
 \* an event of a live session that no spec action explains
 TUnexplained ==
-         /\ l <= Len(Log) /\ live /\ Ev.a # "Session"
-         /\ LET r == IF Ev.id # sc.id \/ pc > Len(sc.plan) \/ Ev.i # pc THEN "out-of-order"
-                     ELSE IF Ev.a = "Crash" THEN "crash"
-                     ELSE IF Ev.a # sc.plan[pc].a THEN "wrong-action"
-                     ELSE Verdict(sc.plan[pc], Ev)
-            IN /\ r # "ok"
-               /\ Report(r)
+         /\ l <= Len(Log) /\ live /\ Ev.a # "Session" /\ ~NoInput /\ ~Stopped
+         /\ Pending # {}
+         /\ PrintT(<<"MISMATCH", ToJson([id |-> sc.id, i |-> pc, l |-> l, reasons |-> SetSeq(Pending)])>>)
          /\ live' = FALSE
          /\ l' = l + 1 /\ UNCHANGED vars
 
@@ -55,7 +68,7 @@ TUnexplained ==
 TSkip == /\ l <= Len(Log) /\ ~live /\ Ev.a # "Session"
          /\ l' = l + 1 /\ UNCHANGED <<vars, live>>
 
-TNext == TSession \/ TStep \/ TUnexplained \/ TSkip
+TNext == TSession \/ TStep \/ TStopKnown \/ TNoInput \/ TUnexplained \/ TSkip
 TraceSpec == TInit /\ [][TNext]_tvars
 
 TraceAccepted == TLCGet("stats").diameter - 1 = Len(Log)
